@@ -61,7 +61,7 @@ func validDNA(s []byte) bool {
 }
 
 func checkC14(c C14Case, o *Obs) error {
-	seq := []byte(c.Seq)
+	seq := window(c.Seq) // valid bases follow the sequence in its backing array
 	seqCopy := bytes.Clone(seq)
 	o.Class("kind:" + c.Kind)
 	switch c.Kind {
